@@ -27,7 +27,7 @@ var c08Values = []interface{}{
 }
 
 func randCond(rng *rand.Rand) hExpr {
-	keys := []string{"x", "x", "x", "y", "missing", "_label", "_gid", "n.k"}
+	keys := []string{"x", "x", "x", "y", "missing", "_label", "_gid", "n.k", "_score", "_meta.k", "_data.x", "$.x", "$._score", "_labels", "gid"}
 	return hExpr{Kind: "cond", Key: keys[rng.Intn(len(keys))], Op: copList[rng.Intn(len(copList))], Arg: c08Values[rng.Intn(len(c08Values))]}
 }
 func randExpr(rng *rand.Rand, depth int) hExpr {
@@ -62,7 +62,7 @@ func runC08(ctx *Ctx) error {
 	ctx.CaseTy = "c08_case"
 	ctx.Shard = 400
 	ctx.Exhaustive = true
-	ctx.Rule = "exhaustive grid: 12 operators x 38 element values (missing, null, booleans, boundary numbers, numeric and non-numeric text, lists, maps) x 38 arguments (incl. wrong arity / wrong-typed bound lists), direct calls of logic.MatchesHasExpression; plus random Boolean combinations (and/or/not/unset, empty lists) to depth 2 (quick) / 5 (thorough) over several keys incl. _label/_gid/nested/missing; non-trivial = condition on a present value with an argument of the operator's expected shape, or a nested expression; distinct by (data, expression)"
+	ctx.Rule = "exhaustive grid: 12 operators x 38 element values (missing, null, booleans, boundary numbers, numeric and non-numeric text, lists, maps) x 38 arguments (incl. wrong arity / wrong-typed bound lists), direct calls of logic.MatchesHasExpression; plus random Boolean combinations (and/or/not/unset, empty lists) to depth 2 (quick) / 5 (thorough) over several keys incl. _label/_gid/_data.x/nested/missing and property names that merely start with an underscore (_score, _meta.k, _labels) or spell a reserved field without it (gid); non-trivial = condition on a present value with an argument of the operator's expected shape, or a nested expression; distinct by (data, expression)"
 	var inputs []c08Input
 	if ctx.Replay != nil {
 		var in c08Input
@@ -92,7 +92,10 @@ func runC08(ctx *Ctx) error {
 		}
 		for i := 0; i < n; i++ {
 			data := map[string]interface{}{"x": c08Values[ctx.Rng.Intn(len(c08Values))], "y": c08Values[ctx.Rng.Intn(len(c08Values))],
-				"n": map[string]interface{}{"k": c08Values[ctx.Rng.Intn(len(c08Values))]}}
+				"n": map[string]interface{}{"k": c08Values[ctx.Rng.Intn(len(c08Values))]},
+				// property names that merely look like the reserved fields
+				"_score": c08Values[ctx.Rng.Intn(len(c08Values))], "_meta": map[string]interface{}{"k": c08Values[ctx.Rng.Intn(len(c08Values))]},
+				"_labels": "L", "gid": "v1"}
 			inputs = append(inputs, c08Input{Data: data, Expr: randExpr(ctx.Rng, depth)})
 		}
 	}
